@@ -209,7 +209,7 @@ func (g *Gen) external(f *Frame, fn *ssa.Function, args []Arg, ins ssa.Instructi
 	// interpreted as formatting directives and the reported text is no longer the text that was to be reported)
 	if k, isFmt := map[string]int{"fmt.Errorf": 0, "fmt.Sprintf": 0, "fmt.Printf": 0, "fmt.Fprintf": 1, "fmt.Sscanf": 1, "log.Printf": 0, "log.Fatalf": 0}[name]; isFmt && k < len(args) {
 		if ci, ok := ins.(ssa.CallInstruction); ok && k < len(ci.Common().Args) {
-			if _, isConst := ci.Common().Args[k].(*ssa.Const); !isConst {
+			if !constFormat(ci.Common().Args[k], 0) {
 				g.safety(f, fmt.Sprintf("(not (str.contains %s \"%%\"))", args[k].t.S), "format-string", ins.Pos())
 			}
 		}
@@ -350,4 +350,23 @@ func (g *Gen) allocEmbedded(f *Frame, ref string, st types.Type, depth int) {
 			g.allocEmbedded(f, r2, inner, depth+1)
 		}
 	}
+}
+
+// constFormat: the format operand is a compile-time constant, or a choice (phi) between such constants.
+func constFormat(v ssa.Value, depth int) bool {
+	switch x := v.(type) {
+	case *ssa.Const:
+		return true
+	case *ssa.Phi:
+		if depth > 3 {
+			return false
+		}
+		for _, e := range x.Edges {
+			if !constFormat(e, depth+1) {
+				return false
+			}
+		}
+		return true
+	}
+	return false
 }
